@@ -77,6 +77,8 @@ Proof.
   destruct o; repeat (first [ apply single_nil | apply write1_single | apply ldel_single | apply extend_core_single
                              | apply rebind_core_single | destr_if | destr_match ]); auto with c09.
   all: try (unfold clear_list_tr, reorder_tr; simpl; repeat destr_match; auto with c09).
+  all: try (destruct (new_list_from q st its) as [c st1]; apply extend_core_single).
+  all: try (destruct (new_list_from q st []) as [c st1]; apply single_silent; apply extend_tr_silent').
 Qed.
 Theorem step_trace_single : forall q st o, single (step_trace q st o).
 Proof. intros. unfold step_trace. repeat destr_match; auto with c09. apply exec_trace_single. Qed.
